@@ -4,7 +4,7 @@
 
    Model: Model/ErrModel.v, a transcription of check_for_synthetic_http_error /
    check_for_synthetic_manifest_error and the per-session failure counter. *)
-From Verif Require Import Base.Tactics Base.ZList Base.Str Model.ErrModel Proofs.ErrProofs.
+From Verif Require Import Base.Tactics Base.ZList Base.Str Model.IsoTimeModel Model.SegModel Model.ErrModel Proofs.ErrProofs.
 From Verif Require Import Model.OptionsModel Model.OptErrModel Proofs.OptErrProofs Gen.OptionsTable.
 
 (* a request that no (code, position) entry addresses gets no synthetic response and leaves every
@@ -106,6 +106,23 @@ Theorem C16_time_addresses_containing_segment :
   sn <= n /\ (n - sn) * dur <= delta * ts < (n - sn + 1) * dur.
 Proof. exact time_to_segment_contains. Qed.
 Print Assumptions C16_time_addresses_containing_segment.
+
+(* recorded finding (time-position-segment:aerr): with irregular segment durations (audio) the number computed from the
+   nominal duration addresses a segment that does not contain the instant - here the NEIGHBOUR of the one that does *)
+Theorem C16_refuted_time_position_irregular :
+  exists r tm delta, rep_ok r /\
+    exists m tfdt num d,
+      serve r tm None (Some (time_to_segment (r_start_number r) delta (r_ts r) (r_seg_dur r))) = Some (m, tfdt, num, d) /\
+      ~ (tfdt <= delta * r_ts r < tfdt + d).
+Proof.
+  exists {| r_ts := 2; r_durs := [4; 1; 7; 4]; r_start_number := 1; r_seg_dur := 4; r_lr := 16; r_start_time := 0 |},
+         {| t_live := true; t_elapsed := 20000000; t_tsbd := 20000000; t_fta := 0; t_leeway := 16000000 |}, 3.
+  split.
+  - unfold rep_ok. split; [vm_compute; discriminate|]. split; [repeat constructor; vm_compute; discriminate|].
+    repeat split; vm_compute; try reflexivity; discriminate.
+  - exists 2, 4, 2, 1. split; [vm_compute; reflexivity|]. cbn. lia.
+Qed.
+Print Assumptions C16_refuted_time_position_irregular.
 
 (* option texts: every text the strict C07 reader accepts is accepted with the same value by the
    reader for arbitrary text (Python's int grammar), and for every registered option whose codec
